@@ -30,8 +30,8 @@ fn check_day(ctx: &Ctx, civ: &Civil, tm: &Terms, ord: usize, routes: bool, steps
     None => return,
   };
   let (y, k, gj) = ym_of_g(g);
-  if y < 1 {
-    return; // before the Lichun of year 1
+  if y < 0 {
+    return; // before the Xiaohan day of year 1 (the governing Jie lies in 1 BC)
   }
   loc.states += 1;
   loc.transitions += 3;
@@ -161,7 +161,7 @@ fn check_inst(ctx: &Ctx, civ: &Civil, tm: &Terms, inst: i64, routes: bool, loc: 
     None => return,
   };
   let (y, k, _) = ym_of_g(g);
-  if y < 1 || d.0 > 9998 {
+  if y < 0 || d.0 > 9998 {
     return;
   }
   loc.transitions += 2;
@@ -214,10 +214,30 @@ fn check_year_obj(ctx: &Ctx, y: isize, loc: &mut Local) {
     Ok((py, first, ms, ys, byidx)) => {
       let want: Vec<String> = (0..12).map(|k| month_pillar(y as i64, k)).collect();
       if py != pillar_name(year_pillar(y as i64)) || first != want[0] || ms != want || byidx != want || ys.iter().any(|x| *x != y) {
-        ctx.violation("year_object", key, format!("SixtyCycleYear({}): pillar {} first month {} months {:?} (years {:?}); model pillar {} months {:?}", y, py, first, ms, ys, pillar_name(year_pillar(y as i64)), want), rp);
+        ctx.violation("year_object", key.clone(), format!("SixtyCycleYear({}): pillar {} first month {} months {:?} (years {:?}); model pillar {} months {:?}", y, py, first, ms, ys, pillar_name(year_pillar(y as i64)), want), rp.clone());
       }
     }
-    Err(m) => ctx.violation("year_object", key, format!("panics: {}", m), rp),
+    Err(m) => ctx.violation("year_object", key.clone(), format!("panics: {}", m), rp.clone()),
+  }
+  // an index outside 0..=11 carries into the neighbouring years
+  if y >= 3 && y <= 9996 {
+    for i in [-13i64, -12, -1, 12, 13, 24, 25] {
+      loc.transitions += 1;
+      let t = 12 * y as i64 + i;
+      let (ny, nk) = (t.div_euclid(12), t.rem_euclid(12) as usize);
+      let r = guard(|| {
+        let m = SixtyCycleMonth::from_index(y, i as isize);
+        (m.get_sixty_cycle().get_name(), m.get_sixty_cycle_year().get_year(), m.get_index_in_year())
+      });
+      match r {
+        Ok((name, yy, idx)) => {
+          if name != month_pillar(ny, nk) || yy as i64 != ny || idx != nk {
+            ctx.violation("year_object", format!("{} i={:+}", key, i), format!("SixtyCycleMonth::from_index({}, {}) = {} (index {}) of year {}; model {} (index {}) of year {}", y, i, name, idx, yy, month_pillar(ny, nk), nk, ny), rp.clone());
+          }
+        }
+        Err(m) => ctx.violation("year_object", format!("{} i={:+}", key, i), format!("SixtyCycleMonth::from_index({}, {}) panics: {}", y, i, m), rp.clone()),
+      }
+    }
   }
 }
 
@@ -231,7 +251,7 @@ pub fn run(ctx: &Ctx) {
       check_year_obj(ctx, y as isize - 1, l);
     }
   });
-  ctx.subspace("sexagenary years -1..9999: year pillar, first month, 12 months by list and by index", done, 10001);
+  ctx.subspace("sexagenary years -1..9999: year pillar, first month, 12 months by list and by index, and by 7 indexes outside 0..=11", done, 10001);
   let years = years_for(ctx, 1, 9998);
   let mut runs: Vec<(usize, usize)> = Vec::new();
   let mut n = 0u64;
